@@ -1291,7 +1291,7 @@ PROP = Property(
               "C14.getitem_elementwise", "C14.getitem_view_commutes",
               "C14.remove_closure", "C14.depClosure_iff_reach", "C14.remove_absent", "C14.remove_spec",
               "C14.update_id_preserves_order", "C14.update_id_preserves_values",
-              "C14.update_id_breaks_dependents"],
+              "C14.update_id_breaks_dependents", "C14.parse_print"],
     families=[GramFam(), Bcl(), ExprFam(), ArithFam(), ULink(), ParsedFam(), HistFam()],
     trusted_base=[
         "numpy ufuncs are pure elementwise functions of (dtype, bit pattern) independent of array layout (`**` is only generated on operands whose result is exact, because numpy's SIMD and scalar pow differ in the last bit otherwise); numpy basic indexing, broadcast_to/broadcast_arrays striding (L0 model in Model/Derived.lean, the zero-stride pattern of results is compared in the bcl family)",
